@@ -56,7 +56,12 @@ def run_corpus(prop):
     import glob
     for d in sorted(glob.glob(os.path.join(VERIF, 'seeded', prop + '-*'))):
         if os.path.exists(os.path.join(d, 'patch.diff')):
-            corpus.append({'kind': 'mutant', 'property': prop, 'id': 'seed:' + os.path.basename(d), 'patch': os.path.join(d, 'patch.diff'), 'expect': None})
+            doc = None
+            try:
+                doc = json.load(open(os.path.join(d, 'meta.json'))).get('documented_gap')
+            except (OSError, ValueError):
+                pass
+            corpus.append({'kind': 'mutant', 'property': prop, 'id': 'seed:' + os.path.basename(d), 'patch': os.path.join(d, 'patch.diff'), 'expect': None, 'documented_gap': doc})
     for d in sorted(glob.glob(os.path.join(VERIF, 'refactors', '*'))):
         mp = os.path.join(d, 'meta.json')
         if not os.path.exists(mp):
@@ -82,7 +87,7 @@ def run_corpus(prop):
             if hit:
                 out['mutants_flagged'] += 1
             else:
-                out['gaps'].append({'id': r['id'], 'exit': r['exit'], 'keys': r['keys'][:3]})
+                out['gaps'].append({'id': r['id'], 'exit': r['exit'], 'keys': r['keys'][:3], **({'documented': r['documented_gap']} if r.get('documented_gap') else {})})
         else:
             out['refactors'] += 1
             if r['exit'] == 0:
